@@ -11,6 +11,7 @@
   (Lemmas/C42.lean, `main` / `mainL`), no bounds.
 -/
 import MitmVerif.Lemmas.C42
+import MitmVerif.Lemmas.C42Print
 namespace MitmVerif.Props.C42
 open MitmVerif.C42
 
@@ -184,5 +185,138 @@ example : parseStruct "a | b c".toList
     = some (.and [.or [.rex ['u'] ['a'], .rex ['u'] ['b']], .rex ['u'] ['c']]) := by rfl
 /-- a regex that does not compile makes an otherwise fine expression invalid -/
 example : parse (fun _ a => a != ['[']) "~q & [".toList = none := by decide +kernel
+
+/-! ### the canonical printer: parse ∘ print = id on everything the grammar can express -/
+
+/-- The canonical text of an expressible tree is one of the documented ways of writing it. -/
+theorem print_renders (t : Ast) (h : Printable t) : Renders t (print t) := by
+  obtain ⟨a, _, c⟩ := pr_ok t h 3 [] (by decide) (Nat.le_refl _) trivial
+  exact ⟨pr 3 [] t, [], a, trivial, c, by simp [print]⟩
+
+/-- parse ∘ print = id: for EVERY expressible tree (every operator code of the generated tables, every argument
+string - empty, with quotes, backslashes, white space, parentheses, `~` - every number, any nesting of `!`, `&`, `|`)
+the printed text is read back as exactly that tree. -/
+theorem parse_print (t : Ast) (h : Printable t) : parseStruct (print t) = some t :=
+  parse_render_struct t (print t) (print_renders t h)
+
+/-- … and `flowfilter.parse` accepts it whenever its regexes compile. -/
+theorem parse_print_compiles (compiles : Str → Str → Bool) (t : Ast) (h : Printable t)
+    (hc : argsOk compiles t = true) : parse compiles (print t) = some t :=
+  parse_render_exact compiles t (print t) (print_renders t h) hc
+
+/-- `Printable` is exactly what the grammar can express: a tree is the parse of some text iff its codes come from the
+tables and every conjunction/disjunction has at least two members. -/
+theorem printable_iff_parsable (t : Ast) : Printable t ↔ ∃ s, parseStruct s = some t :=
+  ⟨fun h => ⟨print t, parse_print t h⟩, fun ⟨s, h⟩ => parseStruct_printable s t h⟩
+
+/-- The trees outside `Printable` (an unknown code, `FAnd`/`FOr` with fewer than two members, anywhere inside) are
+never produced by the parser, whatever the text. -/
+theorem not_printable_unparsable (t : Ast) (h : ¬ Printable t) (s : Str) : parseStruct s ≠ some t :=
+  fun hs => h (parseStruct_printable s t hs)
+
+/-- print ∘ parse is a normal form: whatever text was accepted, printing its tree and parsing again gives the same
+tree (so `print (parse s)` is a canonical spelling of `s`). -/
+theorem print_parse_normal (s : Str) (t : Ast) (h : parseStruct s = some t) : parseStruct (print t) = some t :=
+  parse_print t (parseStruct_printable s t h)
+
+theorem print_parse_normal_compiles (compiles : Str → Str → Bool) (s : Str) (t : Ast) (h : parse compiles s = some t) :
+    parse compiles (print t) = some t := by
+  unfold parse at h
+  cases hp : parseStruct s with
+  | none => simp [hp] at h
+  | some t' =>
+    simp only [hp] at h
+    by_cases hc : argsOk compiles t' = true
+    · simp [hc] at h
+      subst h
+      exact parse_print_compiles compiles t' (parseStruct_printable s t' hp) hc
+    · simp [hc] at h
+
+example : ¬ Printable (.and [.unary ['q']]) := by simp [Printable]
+example : ¬ Printable (.or []) := by simp [Printable]
+example : ¬ Printable (.not (.unary ['x', 'y'])) := by simp [Printable]; decide
+example : String.ofList (print (.or [.and [.not (.rex ['u'] ['a', ' ', '"', '\\']), .int ['c'] 200], .rex ['b'] [],
+    .not (.or [.unary ['q'], .rex ['h'] ['x', '|', 'y']])]))
+    = "!~u \"a \\\"\\\\\" & ~c 200 | ~b \"\" | !(~q | ~h x|y)" := by decide +kernel
+
+/-! ### evaluation is the Boolean algebra of the leaf verdicts, for every tree -/
+
+theorem eval_not {Flow : Type} (sem : Sem Flow) (f : Flow) (t : Ast) : eval sem (.not t) f = !eval sem t f := by
+  simp [eval]
+
+theorem eval_and_all {Flow : Type} (sem : Sem Flow) (f : Flow) (l : List Ast) :
+    eval sem (.and l) f = l.all (fun t => eval sem t f) := by
+  simp [eval, evalAll_eq]
+
+theorem eval_or_any {Flow : Type} (sem : Sem Flow) (f : Flow) (l : List Ast) :
+    eval sem (.or l) f = l.any (fun t => eval sem t f) := by
+  simp [eval, evalAny_eq]
+
+/-- `eval` is the homomorphic extension of the leaf valuation: the verdict of a tree is the value of the Boolean
+formula it stands for under "leaf ↦ its own verdict". -/
+theorem eval_hom {Flow : Type} (sem : Sem Flow) (f : Flow) (t : Ast) :
+    eval sem t f = evalV (fun a => eval sem a f) t :=
+  eval_evalV sem f t
+
+/-- The verdict depends on the leaves only through their verdicts: two engines (and two flows) that agree on every
+leaf of `t` agree on `t`. -/
+theorem eval_congr {Flow Flow' : Type} (sem : Sem Flow) (sem' : Sem Flow') (f : Flow) (f' : Flow') (t : Ast)
+    (h : ∀ a ∈ leaves t, eval sem a f = eval sem' a f') : eval sem t f = eval sem' t f' := by
+  rw [eval_hom sem f t, eval_hom sem' f' t]
+  exact evalV_congr _ _ t h
+
+theorem eval_double_neg {Flow : Type} (sem : Sem Flow) (f : Flow) (t : Ast) :
+    eval sem (.not (.not t)) f = eval sem t f := by
+  simp [eval]
+
+/-- De Morgan -/
+theorem eval_de_morgan {Flow : Type} (sem : Sem Flow) (f : Flow) (l : List Ast) :
+    eval sem (.not (.and l)) f = eval sem (.or (l.map .not)) f ∧
+    eval sem (.not (.or l)) f = eval sem (.and (l.map .not)) f := by
+  rw [eval_not, eval_not, eval_and_all, eval_or_any, eval_or_any, eval_and_all]
+  constructor
+  · induction l with
+    | nil => simp
+    | cons t l ih => simp [eval, Bool.not_and, ih]
+  · induction l with
+    | nil => simp
+    | cons t l ih => simp [eval, Bool.not_or, ih]
+
+/-- Flattening: a conjunction directly inside a conjunction (a disjunction inside a disjunction) may be spliced in. -/
+theorem eval_flatten {Flow : Type} (sem : Sem Flow) (f : Flow) (pre xs post : List Ast) :
+    eval sem (.and (pre ++ .and xs :: post)) f = eval sem (.and (pre ++ xs ++ post)) f ∧
+    eval sem (.or (pre ++ .or xs :: post)) f = eval sem (.or (pre ++ xs ++ post)) f := by
+  simp [eval_and_all, eval_or_any, List.all_append, List.any_append, Bool.and_assoc, Bool.or_assoc]
+
+/-- `And [And xs, y] ≡ And (xs ++ [y])` -/
+theorem eval_and_nested {Flow : Type} (sem : Sem Flow) (f : Flow) (xs : List Ast) (y : Ast) :
+    eval sem (.and [.and xs, y]) f = eval sem (.and (xs ++ [y])) f := by
+  have := (eval_flatten sem f [] xs [y]).1
+  simpa using this
+
+/-- Commutativity: the verdict of a conjunction / disjunction does not depend on the order of its members. -/
+theorem eval_perm {Flow : Type} (sem : Sem Flow) (f : Flow) (l l' : List Ast) (h : l.Perm l') :
+    eval sem (.and l) f = eval sem (.and l') f ∧ eval sem (.or l) f = eval sem (.or l') f := by
+  rw [eval_and_all, eval_and_all, eval_or_any, eval_or_any]
+  exact ⟨perm_all _ h, perm_any _ h⟩
+
+/-- The implicit-conjunction wrapper is absorbed: `FAnd` of one term is that term (the parser never builds it, and it
+would not matter), the empty conjunction is true, the empty disjunction false, and members peel off. -/
+theorem eval_wrapper {Flow : Type} (sem : Sem Flow) (f : Flow) (t : Ast) (l : List Ast) :
+    eval sem (.and [t]) f = eval sem t f ∧ eval sem (.or [t]) f = eval sem t f ∧
+    eval sem (.and []) f = true ∧ eval sem (.or []) f = false ∧
+    eval sem (.and (t :: l)) f = (eval sem t f && eval sem (.and l) f) ∧
+    eval sem (.or (t :: l)) f = (eval sem t f || eval sem (.or l) f) := by
+  simp [eval_and_all, eval_or_any]
+
+/-- a juxtaposed conjunction and the `&`-conjunction of the same members are the same tree, hence the same verdict;
+wrapping the members of a run in one more conjunction changes nothing either -/
+theorem eval_juxt_absorb {Flow : Type} (sem : Sem Flow) (f : Flow) (l : List Ast) :
+    eval sem (.and [.and l]) f = eval sem (.and l) f := by
+  simp [eval_and_all]
+
+/-- non-vacuity of `eval_congr`: the leaves of a tree are what one expects -/
+example : leaves (.or [.and [.not (.unary ['q']), .int ['c'] 7], .rex ['u'] ['x']])
+    = [.unary ['q'], .int ['c'] 7, .rex ['u'] ['x']] := rfl
 
 end MitmVerif.Props.C42
